@@ -8,6 +8,10 @@
       `ReadAllEntries` — when not a single byte follows the header; when some but not all
       bytes follow it is `io.ErrUnexpectedEOF` (an error) or, with `cfg.shortPayloadIsEOF`,
       the torn tail of an interrupted append, i.e. also a clean end;
+    * a block header whose `CompressedSize` is 0 is the end of the data (`cfg.zeroSizeIsEOF`), and so
+      is a block that is entirely there, does not parse, ends in a zero byte and has only zero
+      bytes behind it (`cfg.zeroTailIsEOF`): the zero-filled tail a power loss leaves when the file
+      size of an append reached the disk and its data did not;
     * `ParseBlock` ignores bytes after the last counted entry;
     * `LoadIndex` ignores operations other than 1..4;
     * `LoadIndex` discards everything on an error, `scanFile` keeps what it saw before it.
@@ -69,8 +73,9 @@ inductive BlockRes where
   | err (e : Err)
   | ok (es : List Entry) (rest : Bytes)
 
-/-- `readNextBlock` at a position where `rest` is what remains of the file -/
-def readNextBlock (cfg : Cfg) (d : Decoder) (crc : Checksum) (rest : Bytes) : BlockRes :=
+/-- `readNextBlock` at a position where `rest` is what remains of the file, before the two
+    zero-tail rules -/
+def readNextBlockCore (cfg : Cfg) (d : Decoder) (crc : Checksum) (rest : Bytes) : BlockRes :=
   if shorterThan rest 16 then .eof else
   let h := decodeBlockHeader rest
   let after := rest.drop 16
@@ -81,9 +86,9 @@ def readNextBlock (cfg : Cfg) (d : Decoder) (crc : Checksum) (rest : Bytes) : Bl
     | .error e => .err e
     | .ok es => .ok es (after.drop h.csize)
 
-theorem readNextBlock_ok_length {cfg d crc rest es rest'}
-    (h : readNextBlock cfg d crc rest = .ok es rest') : rest'.length + 16 ≤ rest.length := by
-  unfold readNextBlock at h
+theorem readNextBlockCore_ok_length {cfg d crc rest es rest'}
+    (h : readNextBlockCore cfg d crc rest = .ok es rest') : rest'.length + 16 ≤ rest.length := by
+  unfold readNextBlockCore at h
   simp only [shorterThan_eq, decide_eq_true_eq] at h
   split at h
   · cases h
@@ -97,6 +102,104 @@ theorem readNextBlock_ok_length {cfg d crc rest es rest'}
         · cases h
           simp only [List.length_drop]
           omega
+
+/-- `zeroFilledTail`: the payload that did not parse is not empty and ends in a zero byte, and
+    nothing but zero bytes follows it up to the end of the file -/
+def zeroTail (payload behind : Bytes) : Bool :=
+  payload.getLast? == some 0 && behind.all (· == 0)
+
+/-- `readNextBlock`: a zero size field is the end of the data (`cfg.zeroSizeIsEOF`); a block that
+    is entirely there but does not parse (every error of `ParseBlock`; `ueof` is the `ReadFull`
+    error, which comes before) is the end of the data when it runs out in zeros with only zeros
+    behind (`cfg.zeroTailIsEOF`) -/
+def readNextBlock (cfg : Cfg) (d : Decoder) (crc : Checksum) (rest : Bytes) : BlockRes :=
+  if cfg.zeroSizeIsEOF && (decodeBlockHeader rest).csize == 0 then .eof else
+  match readNextBlockCore cfg d crc rest with
+  | .eof => .eof
+  | .ok es rest' => .ok es rest'
+  | .err e =>
+    if cfg.zeroTailIsEOF && e != .ueof &&
+        zeroTail ((rest.drop 16).take (decodeBlockHeader rest).csize) ((rest.drop 16).drop (decodeBlockHeader rest).csize)
+    then .eof else .err e
+
+theorem readNextBlock_ok_core {cfg d crc rest es rest'}
+    (h : readNextBlock cfg d crc rest = .ok es rest') : readNextBlockCore cfg d crc rest = .ok es rest' := by
+  unfold readNextBlock at h
+  split at h
+  · cases h
+  · split at h
+    · cases h
+    · rename_i heq; cases h; exact heq
+    · split at h <;> cases h
+
+theorem readNextBlock_of_core_ok {cfg d crc rest es rest'}
+    (hc : readNextBlockCore cfg d crc rest = .ok es rest')
+    (hz : cfg.zeroSizeIsEOF = true → (decodeBlockHeader rest).csize ≠ 0) :
+    readNextBlock cfg d crc rest = .ok es rest' := by
+  unfold readNextBlock
+  rw [hc]
+  by_cases h : cfg.zeroSizeIsEOF = true
+  · have := hz h
+    simp [h, this]
+  · simp [h]
+
+theorem readNextBlock_of_core_eof {cfg d crc rest}
+    (hc : readNextBlockCore cfg d crc rest = .eof) : readNextBlock cfg d crc rest = .eof := by
+  unfold readNextBlock
+  rw [hc]
+  split <;> rfl
+
+theorem readNextBlock_err_core {cfg d crc rest e}
+    (h : readNextBlock cfg d crc rest = .err e) : readNextBlockCore cfg d crc rest = .err e := by
+  unfold readNextBlock at h
+  split at h
+  · cases h
+  · split at h
+    · cases h
+    · cases h
+    · rename_i heq
+      split at h
+      · cases h
+      · cases h; exact heq
+
+/-- an error of the core reader stays that error or becomes the end of the data -/
+theorem readNextBlock_of_core_err {cfg d crc rest e}
+    (hc : readNextBlockCore cfg d crc rest = .err e) :
+    readNextBlock cfg d crc rest = .err e ∨ readNextBlock cfg d crc rest = .eof := by
+  unfold readNextBlock
+  rw [hc]
+  split
+  · exact Or.inr rfl
+  · simp only
+    split
+    · exact Or.inr rfl
+    · exact Or.inl rfl
+
+/-- a block the core reader accepts is accepted, or (zero size field) ends the data -/
+theorem readNextBlock_cases_of_core_ok {cfg d crc rest es rest'}
+    (hc : readNextBlockCore cfg d crc rest = .ok es rest') :
+    readNextBlock cfg d crc rest = .ok es rest' ∨ readNextBlock cfg d crc rest = .eof := by
+  unfold readNextBlock
+  rw [hc]
+  split
+  · exact Or.inr rfl
+  · exact Or.inl rfl
+
+/-- without the zero-tail rule (and away from a zero size field) errors are reported as they are -/
+theorem readNextBlock_of_core_err' {cfg d crc rest e}
+    (hc : readNextBlockCore cfg d crc rest = .err e)
+    (hz : cfg.zeroSizeIsEOF = true → (decodeBlockHeader rest).csize ≠ 0) (ht : cfg.zeroTailIsEOF = false) :
+    readNextBlock cfg d crc rest = .err e := by
+  unfold readNextBlock
+  rw [hc]
+  by_cases h : cfg.zeroSizeIsEOF = true
+  · have := hz h
+    simp [h, this, ht]
+  · simp [h, ht]
+
+theorem readNextBlock_ok_length {cfg d crc rest es rest'}
+    (h : readNextBlock cfg d crc rest = .ok es rest') : rest'.length + 16 ≤ rest.length :=
+  readNextBlockCore_ok_length (readNextBlock_ok_core h)
 
 /-- The loop of `ReadAllEntries`: every entry read before the clean end or the first error. -/
 def readBlocksP (cfg : Cfg) (d : Decoder) (crc : Checksum) (rest : Bytes) : List Entry × Option Err :=
@@ -237,10 +340,14 @@ def blockAlloc (cfg : Cfg) (d : Decoder) (crc : Checksum) (rest : Bytes) : Nat :
     16 + (if cfg.boundsCompressedSize then 0 else h.csize)
   else 16 + h.csize + parseAlloc cfg d crc h (after.take h.csize)
 
+/-- `zeroFilledTail` reads what is left of the file through one 64 KiB buffer; it runs at most
+    once per load, at the block that ends it -/
+def zeroScanAlloc (cfg : Cfg) : Nat := if cfg.zeroTailIsEOF then 65536 else 0
+
 def loadAllocLoop (cfg : Cfg) (d : Decoder) (crc : Checksum) (rest : Bytes) : Nat :=
   match h : readNextBlock cfg d crc rest with
-  | .eof => blockAlloc cfg d crc rest
-  | .err _ => blockAlloc cfg d crc rest
+  | .eof => blockAlloc cfg d crc rest + zeroScanAlloc cfg
+  | .err _ => blockAlloc cfg d crc rest + zeroScanAlloc cfg
   | .ok _ rest' => blockAlloc cfg d crc rest + loadAllocLoop cfg d crc rest'
 termination_by rest.length
 decreasing_by
